@@ -22,7 +22,7 @@ ARG_SHAPES = [
     [1, 2], (4, 2.5), [True, 3], [2.5, 1], {"a": 5, "b": 1.5}, {"k": [1, (2, 0.5)]}, [S, 4], (None, "x", 7),
     [[1, 2], [3, 4]], ([0.5], {"z": 2}), [], {},
 ]
-BODIES = ["identity", "product", "compare", "constant", "mixed", "first_twice"]
+BODIES = ["identity", "product", "compare", "constant", "mixed", "first_twice", "same_object", "shared_constant"]
 
 
 def leaves(x, out=None):
@@ -56,6 +56,11 @@ def body(name):
             return (a < b, [a == a])
         if name == "first_twice":
             return [a + 1, a + 1]
+        if name == "same_object":
+            x = a * b
+            return (x, {"again": x}, [x])       # one wire object published three times
+        if name == "shared_constant":
+            return [a ** 0, a, a ** 1]          # a**0 is the library's shared constant, a**1 is a itself
         return {"s": a + 1, "t": [b * 2, "str", None], "u": a <= b, "c": 9}
     return fn
 
